@@ -1041,7 +1041,7 @@ fn get_quote_trait_params<'a>(input: &DataType, ctx: &'a ImplContext) -> QuoteTr
     }).collect();
 
     let those_lts: Vec<&Lifetime> = ctx.struct_attr.ty.generics.as_ref().map(|g| g.args.iter().filter_map(|g| match g {
-        GenericArgument::Lifetime(l) => Some(l),
+        GenericArgument::Lifetime(l) if l.ident != "static" && l.ident != "_" => Some(l),
         _ => None
     }).collect()).unwrap_or_default();
 
